@@ -91,6 +91,7 @@ func TestVerifC14(t *testing.T) {
 		Name:          "otlpmetricgrpc",
 		Alphabet:      grpcx.Alphabet(),
 		SetWait:       retry.VerifC14SetWait,
+		Clock:         verifc14.ClockSeam{Advance: retry.VerifC14Advance, Reset: retry.VerifC14ResetClock, Reads: retry.VerifC14ClockReads},
 		Reports:       grpcx.Reports,
 		DecodePayload: c14Decode,
 		// Exporter.Shutdown takes clientMu, which Export holds for the whole upload.
